@@ -256,3 +256,38 @@ def check(ctx):
              '(comparisons: %s)' % [a_[:80] for a_ in cmp_atoms][:4], detail=[a_[:80] for a_ in cmp_atoms][:6])
     from . import c12
     c12.printed_value_signedness(ctx, r4)
+
+    # values preserved from the scanned source: looked up under the name the member gets
+    r5 = ctx.rule('R5', 'runtime-registered enumerations keep the scanned (exact) member values: the lookup key is the member name the scanner produced; '
+                  'upper-case test on identifiers covers the whole prefix test; private members are skipped one at a time', floor=3)
+    IE = gsa.summarise(ctx, 'gdumpparser', 'GDumpParser._introspect_enum')
+    stores = [e for e in gsa.find(IE, 'store', r'^\w+\[.*\]$')]
+    keyed = dict((e.target[:e.target.index('[')], e.target[e.target.index('[') + 1:-1]) for e in stores)     # dict name -> key expression
+    mem = [e for e in gsa.find(IE, 'call', r'^ast\.Member$') if e.args]
+    looked = 0
+    for e in mem:
+        for a_ in e.args[1:3]:
+            m_ = re.match(r'^(\w+)\[(.*)\]$', a_)
+            if m_ and m_.group(1) in keyed:
+                looked += 1
+                r5.check(m_.group(2) == e.args[0] and re.search(r'\.name$', keyed[m_.group(1)]), '%s looked up under the new member name' % m_.group(1), 'giscanner/gdumpparser.py', e.line,
+                         'the scanned value is stored under %s (the scanner\'s member name) but looked up with %s while the member is called %s: members whose nick contains "-" '
+                         'lose their exact scanned value and get the 32-bit signed value of the runtime dump' % (keyed[m_.group(1)], m_.group(2)[:60], e.args[0][:60]), detail=[a_, e.args[0]])
+        for at in gsa.atoms(e.cond):
+            m_ = re.match(r'^(.*) in (\w+)$', at)
+            if m_ and m_.group(2) in keyed:
+                r5.check(m_.group(1) == e.args[0], 'membership in %s tested with the new member name' % m_.group(2), 'giscanner/gdumpparser.py', e.line,
+                         'the scanned values are keyed by %s but membership is tested with %s while the member is called %s' % (keyed[m_.group(2)], m_.group(1)[:60], e.args[0][:60]))
+    r5.check(looked >= 1, 'scanned values take precedence over dumped ones', 'giscanner/gdumpparser.py', IE.func.lineno,
+             '_introspect_enum no longer takes member values from the scanned enumeration: values above 2^31-1 are reported with the wrong sign')
+    from . import c04
+    c04.upper_family_rule(ctx, r5)
+    # every public enumerator is visited: the member loop is never left early
+    CE = gsa.summarise(ctx, 'transformer', 'Transformer._create_enum', opaque=('_enum_common_prefix',))
+    in_loop = [e for e in CE.effects if any('child_list' in l for l in e.loops)]
+    if not [e for e in in_loop if e.kind == 'call' and e.target.endswith('.append')]:
+        raise AnalysisError('_create_enum: member loop over child_list not recognised')
+    early = [e for e in in_loop if e.kind in ('break', 'return') and e.fn == '_create_enum']
+    r5.check(not early, 'member loop of _create_enum visits every enumerator', rel, early[0].line if early else CE.func.lineno,
+             'the loop over the enumerators is left early (%s when %s): members declared after that point are missing from the enumeration' %
+             (early[0].kind if early else '', early[0].when()[-160:] if early else ''), detail=[(e.kind, e.when()[-120:]) for e in early])
